@@ -1,6 +1,6 @@
 CONSTANTS
  Keys = {"k1","k2","k3","k4"}
- Sizes = {1,2,3,4,5,7}
+ Sizes = {1,2,3,5,8,9,12}
  Capacity = 8
  MaxOps = 14
  FixCopyOnSet = TRUE
